@@ -111,16 +111,17 @@ HistIdle == fs = [d \in Dirs |-> NoFile] /\ cache = EmptyCache(Dirs) /\ hist = <
 
 ConvInit ==
   /\ HistIdle
-  /\ \E nch \in 1..MaxChan : \E dims \in [1..nch -> ShapeCodes] : \E zero \in (IF AllowZero THEN BOOLEAN ELSE {FALSE}) :
-       /\ zero => dims[1] \div 10 = 2
+  /\ \E nch \in 1..MaxChan : \E dims \in [1..nch -> ShapeCodes] : \E zero \in (IF AllowZero THEN {0, 1, 2} ELSE {0}) :      \* 1: one zero-yield bin, 2: one NEGATIVE-yield bin (interference-like sample)
+       /\ zero # 0 => dims[1] \div 10 = 2
        /\ ws = [channels |-> [c \in 1..nch |->
                    [name |-> ChanName[c], obs |-> [b \in 1..(dims[c] % 10) |-> Obs(c, b)],
                     samples |-> [s \in 1..(dims[c] \div 10) |->
                        [name |-> SampName[s],
-                        data |-> [b \in 1..(dims[c] % 10) |-> IF zero /\ c = 1 /\ s = 2 /\ b = 1 THEN RZero ELSE Nom(c, s, b)],
+                        data |-> [b \in 1..(dims[c] % 10) |-> IF zero = 1 /\ c = 1 /\ s = 2 /\ b = 1 THEN RZero
+                                                               ELSE IF zero = 2 /\ c = 1 /\ s = 2 /\ b = 1 THEN RN(-7, 2) ELSE Nom(c, s, b)],
                         mods |-> IF c = 1 /\ s = 1 THEN <<Mod("mu", "normfactor", <<>>, <<>>)>> ELSE <<>>]]]],
                 meas |-> <<>>]
-       /\ h = (IF zero THEN 5 ELSE 0) + dims[1] * 7 + (IF nch = 2 THEN dims[2] * 13 ELSE 0)
+       /\ h = zero * 5 + dims[1] * 7 + (IF nch = 2 THEN dims[2] * 13 ELSE 0)
   /\ phase = "mods" /\ last = 0 /\ np = 0 /\ res = NoRes
 
 Place(c, s, k) ==
